@@ -42,6 +42,11 @@ static_assert(sizeof(int) <= 2 * sizeof(size_t), "int selects the copying trees"
 static_assert(sizeof(Rec16) == 16 && sizeof(Rec16) <= 2 * sizeof(size_t), "Rec16 selects the copying trees");
 static_assert(sizeof(Rec40) > 2 * sizeof(size_t), "Rec40 selects the pointer trees");
 
+// operator< of the record types is deliberately UNRELATED to the comparators handed to the merges (position only):
+// library code that falls back to operator< instead of the user's comparator computes wrong splits here
+static bool operator<(const Rec16& a, const Rec16& b) { return a.pos < b.pos; }
+static bool operator<(const Rec40& a, const Rec40& b) { return a.pos < b.pos; }
+
 struct KeyLess {
     template <typename R>
     bool operator()(const R& a, const R& b) const { return a.key < b.key; }
